@@ -456,7 +456,7 @@ fn native_mdl_write_parse_identity() {
 }
 
 //@unit props=C06 label=B tier=quick native=1 fn=model::MDL::from_existing bound="by execution: the resource model written with a two-stream layout for mesh 5 whose extra slots are then re-declared, in the file bytes, as the (usage, type) pairs only the reader knows (BlendIndices UnsignedShort4, BlendWeights UnsignedShort4, UV Half2, UV ByteFloat4, Tangent ByteFloat4) and filled with distinct stored values for each of the 110 vertices"
-//@desc the reader finds each attribute at LOD vertex offset + stream offset + element offset + stride*k and decodes it by its (usage, type) pair: 16-bit blend indices narrowed to bytes in order, 16-bit blend weights as numbers in order, Half2 UVs into uv0 only, byte UVs as x/255 into uv0 and uv1, tangents ignored; the other attributes of the same vertices are unaffected
+//@desc the reader finds each attribute at LOD vertex offset + stream offset + element offset + stride*k and decodes it by its (usage, type) pair: 16-bit blend indices narrowed to bytes in order, 16-bit blend weights as numbers in order, Half2 UVs into uv0 only, byte UVs as x/255 into uv0 and uv1, tangents ignored; the other attributes of the same vertices are unaffected; no attribute is read past its own bytes (a file that ends with the last vertex's last element decodes to the same vertices)
 #[test]
 fn native_mdl_reader_only_arms() {
     use VertexType::*; use VertexUsage::*;
@@ -467,15 +467,17 @@ fn native_mdl_reader_only_arms() {
         vec![(UnsignedShort4, BlendIndices, Half4, Normal, 8), (UnsignedShort4, BlendWeights, Half4, Normal, 8), (Half2, UV, ByteFloat4, Color, 4), (ByteFloat4, Tangent, ByteFloat4, Color, 4)],
         vec![(ByteFloat4, UV, ByteFloat4, Color, 4), (UnsignedShort4, BlendIndices, Half4, Normal, 8)],
     ];
-    for (vi, slots) in variants.iter().enumerate() {
+    for (vi, slots0) in variants.iter().enumerate() { for rot in 0..slots0.len() {
+        // every slot takes its turn as the LAST element of the last stream of the last mesh of the last LOD (see the footprint check below)
+        let slots: Vec<(VertexType, VertexUsage, VertexType, VertexUsage, u8)> = (0..slots0.len()).map(|i| slots0[(i + rot) % slots0.len()]).collect();
         let (l, p) = (2usize, 1usize);
         let mut mdl = MDL::from_existing(&bytes).unwrap();
         let j = mdl.lods[l].parts[p].mesh_index as usize;
         // stream 0: position; stream 1: the slots, then a Single3 normal
         let mut elements = vec![nmd_el(0, 0, Single3, Position)];
-        let mut at = 0u8; let mut slot_offsets = vec![];
+        let normal_at = 0u8; let mut at = 12u8; let mut slot_offsets = vec![];
         for (_, _, pt, pu, size) in slots.iter() { elements.push(nmd_el(1, at, *pt, *pu)); slot_offsets.push(at); at += size; }
-        let normal_at = at; elements.push(nmd_el(1, at, Single3, Normal)); at += 12;
+        elements.push(nmd_el(1, normal_at, Single3, Normal));
         mdl.model_data.header.vertex_declarations[j].elements = elements.clone();
         mdl.model_data.meshes[j].vertex_buffer_strides = [12, at, 0];
         let n = mdl.lods[l].parts[p].vertices.len();
@@ -518,6 +520,21 @@ fn native_mdl_reader_only_arms() {
             }
             cases += 1;
         }
-    }
+        // exact footprint: no arm may read past the bytes of its own element.  The file is cut right after the last LOD's vertex section (whose last
+        // bytes are the last slot of the last vertex) and that LOD's indices are taken from LOD 1's index section instead; the part must decode to the same vertices.
+        let (v2, s2, i2) = (w.model_data.lods[2].vertex_data_offset, w.model_data.lods[2].vertex_buffer_size, w.model_data.lods[2].index_data_offset);
+        let i1 = w.model_data.lods[1].index_data_offset;
+        assert!(w.model_data.lods[1].index_buffer_size >= w.model_data.lods[2].index_buffer_size && v2 + s2 == i2, "LOD 1 has room for LOD 2's index reads; LOD 2's vertex section is followed by its index section");
+        assert_eq!(base + stride * n, (v2 + s2) as usize, "the re-declared stream is the last thing in the last vertex section");
+        let mut cut = out[..(v2 + s2) as usize].to_vec();
+        let key: Vec<u8> = [s2, w.model_data.lods[2].index_buffer_size, v2, i2].iter().flat_map(|x| x.to_le_bytes()).collect();
+        let hits: Vec<usize> = (0x44..w.model_data.lods[0].vertex_data_offset as usize - 16).filter(|k| cut[*k..*k + 16] == key[..]).collect();
+        assert_eq!(hits.len(), 1, "the LOD 2 record is found once in the runtime header");
+        cut[hits[0] + 12..hits[0] + 16].copy_from_slice(&i1.to_le_bytes());
+        assert_eq!(cut[36..40], i2.to_le_bytes(), "file header index offset of LOD 2"); cut[36..40].copy_from_slice(&i1.to_le_bytes());
+        let short = MDL::from_existing(&cut).expect("a model whose file ends with its last vertex parses: every element is read within its own bytes");
+        assert!(short.lods[l].parts[p].vertices == back.lods[l].parts[p].vertices, "layout {vi}/{rot}: the same vertices are decoded from the file that ends with the last vertex");
+        cases += 1;
+    } }
     println!("NATIVE native_mdl_reader_only_arms cases={cases}");
 }
